@@ -24,7 +24,7 @@ from ..core import cz, clist, copt, cbool
 from ..runner import Entry, differential
 from . import c02_translate
 
-PRE = ("From Coq.Strings Require Import String Byte.\nFrom EsVerif.Common Require Import Base Bytes.\n"
+PRE = ("From Coq.Strings Require Import String Byte.\nFrom Coq Require Import PrimInt63.\nFrom EsVerif.Common Require Import Base Bytes.\n"
        "From EsVerif.C04 Require Import TextModel.\nFrom EsVerif.C02 Require Import Arange Gen Model Spec Exec.\n")
 
 DELIMS = [None, ",", ":", "\t", " "]
@@ -162,6 +162,26 @@ def fixed_table(n):
 # the scanf oracle for floating-point tokens of text files (as C04: Python's float(), exact here
 # because every generated value is a dyadic rational with at most 7 significant digits)
 # ----------------------------------------------------------------------------------------------------
+def oracle_tables(tbl):
+    """(ft, pt): printf text per floating-point element, scanf value per token (the scope monitor needs both)"""
+    import numpy as np
+    ft, pt = {}, {}
+    a = build_array(tbl)
+    for n, t, sh in tbl["fields"]:
+        base = t.lstrip("<>|=")
+        if base[0] != "f":
+            continue
+        sz = esz(base)
+        for v in np.asarray(a[n], dtype="f8").ravel():
+            tok = ("%.16g" % v) if sz == 8 else ("%.7g" % v)
+            val = float(tok)
+            nat = struct.pack("<d", val) if sz == 8 else struct.pack("<f", val)
+            pt[(sz, tok.encode())] = nat
+            ft[(sz, struct.pack("<d", v) if sz == 8 else struct.pack("<f", v))] = tok.encode()
+        pt[(sz, b"nan")] = struct.pack("<d", float("nan")) if sz == 8 else struct.pack("<f", float("nan"))
+    return (sorted((k[0], k[1], v) for k, v in ft.items()), sorted((k[0], k[1], v) for k, v in pt.items()))
+
+
 def oracle_table(tbl):
     import numpy as np
     pt = {}
@@ -182,7 +202,11 @@ def oracle_table(tbl):
 # Coq printers
 # ----------------------------------------------------------------------------------------------------
 def chex(b):
-    return '(unhex "%s"%%string)' % bytes(b).hex()
+    b = bytes(b)
+    if len(b) <= 64:
+        return '(unhex "%s"%%string)' % b.hex()
+    # large byte strings: Exec.ub over primitive 63-bit integers, seven bytes each (cheap to parse and type-check)
+    return "(ub %d [%s])" % (len(b), "; ".join("0x%x%%uint63" % int.from_bytes(b[i:i + 7], "big") for i in range(0, len(b), 7)))
 
 
 def cbyte(ch):
@@ -621,7 +645,9 @@ def adversarial_rows(n):
            ["list", [n + 2]], ["list", [n]], ["list", [n - 1]], ["list", [0]], ["list", [-1]], ["list", [-n - 1]],
            ["list", []], ["list", [n - 1, 0]], ["list", [0, 0, 0]], ["list", list(range(n))], ["list", list(range(n - 1, -1, -1))],
            ["list", [1, n]], ["list", [-n - 1, 0]], ["list", [min(2, n - 1), 0, min(2, n - 1)]],
-           ["scalar", 0], ["scalar", n - 1], ["scalar", -1], ["scalar", -n], ["scalar", n], ["scalar", -n - 1]]
+           ["scalar", 0], ["scalar", n - 1], ["scalar", -1], ["scalar", -n], ["scalar", n], ["scalar", -n - 1],
+           # steps <= 0 (outside the quantifier; C02_step_zero_*, C02_negative_step_*: model = code is still compared)
+           ["slice", None, None, 0], ["slice", None, None, -1], ["slice", 1, 1, -1], ["slice", n - 1, 0, -2], ["slice", 0, 1, -3]]
     return out
 
 
@@ -653,6 +679,10 @@ def col_pool(names):
         out.append(["list", [names[1], names[0], names[1]]])
     else:
         out.append(["list", [names[0], names[0]]])
+    # unknown names (C02_unknown_column_rejected) and the empty list
+    out.append(["name", "zz"])
+    out.append(["list", [names[0], "zz"]])
+    out.append(["list", []])
     return out
 
 
@@ -693,6 +723,55 @@ def uneven_rowlists(r, n, count):
             l = l + [r.choice(l)]
         out.append(l)
     return out
+
+
+def wide_text_table(r, L, nrows, kind):
+    """a text table every row of which is exactly L bytes long (newline included) for a one-character delimiter:
+    a two-digit i4, a wide sub-array column (8-character strings, or five-digit i2 numbers) and a pad string"""
+    per = 9 if kind == "str" else 6
+    m = (L - 5) // per
+    w = L - 4 - per * m
+    assert m >= 1 and 1 <= w <= per, (L, m, w)
+    fields = [["a", "<i4", []], ["w", "S8" if kind == "str" else "<i2", [m]], ["p", "S%d" % w, []]]
+    rows = []
+    for _ in range(nrows):
+        raw = struct.pack("<i", r.randint(10, 99))
+        if kind == "str":
+            raw += bytes(r.choice(b"abcdefghijklmnopqrstuvwxyz0123456789") for _ in range(8 * m))
+        else:
+            raw += b"".join(struct.pack("<h", r.randint(10000, 32767)) for _ in range(m))
+        raw += bytes(r.choice(b"ABCDEFGHXYZ") for _ in range(w))
+        rows.append(raw.hex())
+    return {"fields": fields, "rows": rows}
+
+
+# row lengths around plausible line-buffer sizes (BUFSIZ-like 4096, 32768, 65536) and well beyond
+WIDE_LENGTHS = [4095, 4096, 4097, 8193, 32766, 32767, 32768, 32769, 65535, 65536, 65537, 81920]
+
+
+def gen_wide_text(ctx, r, round):
+    """text tables whose rows straddle line-buffer sizes; selections that skip at least one row (and columns)"""
+    cs = []
+    if round != 0:
+        return cs
+    picks = [r.choice([4095, 4096, 4097]), r.choice([32767, 32768, 32769]), r.choice([32768, 32769, 65536, 65537]),
+             r.choice([65537, 81920])]
+    if not ctx.quick():
+        picks = WIDE_LENGTHS
+    for L in picks:
+        nrows = 3 if L < 60000 else 2
+        tbl = wide_text_table(r, L, nrows, r.choice(["str", "num"]))
+        delim = r.choice(DELIMS[1:])
+        sels = [["list", [nrows - 1]], ["scalar", -1], ["slice", 1, None, None], ["list", [0, nrows - 1]], ["slice", None, None, 2]]
+        for rows in (sels if (L < 60000 or not ctx.quick()) else sels[:3]):
+            bracket = rows[0] == "slice"
+            style, api = r.choice([s for s in STYLES if (s[0] in ("SGetitem", "SChain")) == bracket])
+            cols = r.choice([["none"], ["list", ["a"]], ["list", ["p", "a"]], ["name", "p"], ["list", ["w"]]])
+            c = complete(r, tbl, delim, style, api, rows, cols)
+            c["split"] = c["reduce"] = False
+            c["family"] = "wide-text-rows"
+            cs.append(c)
+    return cs
 
 
 def gen_long_rowlists(ctx, r, round):
@@ -752,7 +831,8 @@ def complete(r, tbl, delim, style, api, rows, cols):
     bracket = style in ("SGetitem", "SChain")
     if style == "SGetitem":
         cols = ["none"]
-    if style in ("SChain", "SChainRead") and cols[0] == "none":
+    if style in ("SChain", "SChainRead") and (cols[0] == "none" or cols == ["list", []]):
+        # (an empty list in brackets is a ROW list for the real code, not a column list)
         cols = ["list", [f[0] for f in tbl["fields"]][:1]]
     if bracket and rows[0] == "none":
         rows = ["slice", None, None, None]
@@ -808,6 +888,8 @@ def gen_cases(ctx, round):
                                 continue
                             if style == "SChainRead" and cols[0] == "none":
                                 continue
+                            if quick and tfam != "fixed5" and r.random() < 0.55:
+                                continue
                             cs.append(mk(tbl, delim, style, api, rand_rows(r, n, False), cols, split, reduce, r))
             # slices: exhaustive (thorough, n <= 6, fixed tables) or sampled
             pool = slice_pool(n)
@@ -830,6 +912,7 @@ def gen_cases(ctx, round):
                 cs.append(complete(r, tbl, delim, style, api, rand_rows(r, n, style in ("SGetitem", "SChain")),
                                    r.choice(cols_all)))
     cs += gen_long_rowlists(ctx, r, round)
+    cs += gen_wide_text(ctx, r, round)
     for c in cs:
         c.setdefault("family", "gen")
     return cs
@@ -1149,6 +1232,79 @@ def regenerate(ctx):
     return False
 
 
+# ----------------------------------------------------------------------------------------------------
+# scope monitor: are the hypotheses of C02_request_spec (ScopeProofs.wf_bin_b / wf_text_b) true of the REAL file
+# bytes of a case?  Evaluated inside Coq on a sample of the cases of the run.
+# ----------------------------------------------------------------------------------------------------
+PRE_SCOPE = PRE + "From EsVerif.C02 Require Import RequestInst ScopeProofs ExecScope.\n"
+
+
+def ctable_text(tbl):
+    flds, rows = [], []
+    arr = build_array(tbl)
+    for n, t, sh in tbl["fields"]:
+        base = t.lstrip("<>|=")
+        order = "NA" if (base[0] == "S" or esz(base) == 1) else "LE"
+        flds.append("{| fname := []; fkind := %s; forder := %s; fshape := %s |}" % (ckind(base), order, clist(sh)))
+    for i in range(arr.shape[0]):
+        r = []
+        for n, t, sh in tbl["fields"]:
+            base = t.lstrip("<>|=")
+            raw = arr[n][i:i + 1].tobytes()
+            w = esz(base)
+            r.append("[" + "; ".join(chex(raw[k:k + w]) for k in range(0, len(raw), w)) + "]")
+        rows.append("[" + "; ".join(r) + "]")
+    return "{| tdt := [%s]; trows := [%s] |}" % ("; ".join(flds), "; ".join(rows))
+
+
+def scope_term(c, o):
+    names = [f[0] for f in c["tbl"]["fields"]]
+    ids = clist([name_id(i) for i in range(len(names))])
+    if c["delim"] is None:
+        return "v_scope_bin %s %s %s %s" % (crfile(c["tbl"], None, bytes.fromhex(o["data"]), o["nrows"]), crequest(c, names),
+                                            cgrid(o["full"]), cout(o["out"]))
+    ft, pt = oracle_tables(c["tbl"])
+    return "v_scope_text %s %s %s %s %s %s %s %s %s" % (ctab3(ft), ctab3(pt), cbyte(c["delim"]), ids, ctable_text(c["tbl"]),
+                                                        chex(bytes.fromhex(o["data"])), crequest(c, names), cgrid(o["full"]),
+                                                        cout(o["out"]))
+
+
+def scope_monitor(ctx):
+    r = ctx.rng
+    pool = [c for c in all_cases(ctx, 0) if c.get("family") != "wide-text-rows" and len(c["tbl"]["rows"]) <= 12]
+    text = [c for c in pool if c["delim"] is not None]
+    binary = [c for c in pool if c["delim"] is None]
+    k = ctx.n(80, 800)
+    sample = r.sample(text, min(k, len(text))) + r.sample(binary, min(k, len(binary)))
+    ent = Read("columns")
+    outs = [ent.impl(c) for c in sample]
+    try:
+        vals = core.coq_eval(os.path.join(ctx.work, "scope"), PRE_SCOPE, [scope_term(c, o) for c, o in zip(sample, outs)],
+                             tag="scope", shard=40)
+    except core.CoqEvalError as e:
+        ctx.obligation("scope monitor evaluated (hypotheses of C02_request_spec on the real file bytes)", False, str(e)[-400:])
+        ctx.notes.append("scope monitor not evaluated: %s" % str(e)[-300:])
+        return
+    vals = [int(v.replace("%Z", "").strip("() ")) for v in vals]
+    out_of_scope = [c for c, v in zip(sample, vals) if v == 4]
+    impossible = [c for c, v in zip(sample, vals) if v == 2]
+    ctx.count("scope:sampled", len(vals))
+    ctx.count("scope:in", sum(1 for v in vals if v != 4))
+    ctx.count("scope:text_in", sum(1 for c, v in zip(sample, vals) if v != 4 and c["delim"] is not None))
+    ctx.obligation("scope monitor: wf_bin_b / wf_text_b hold of the real file bytes for all %d sampled cases "
+                   "(so C02_request_holds applies to them)" % len(vals), not out_of_scope and not impossible)
+    if out_of_scope:
+        c = min(out_of_scope, key=lambda x: len(json.dumps(x)))
+        ctx.violation("scope monitor: %d of %d sampled cases lie outside the hypotheses of C02_request_spec (file bytes differ from "
+                      "the writer model, or table outside wf_text / wf_bin)" % (len(out_of_scope), len(vals)),
+                      {"kind": "scope", "entry": kind_of(c), "case": c,
+                       "no_longer_checks": "hypotheses wf_bin_b / wf_text_b of C02_request_spec on the real file bytes"},
+                      found_input=False)
+    if impossible:
+        ctx.violation("scope monitor: verdict 2 on an in-scope case contradicts C02_scope_*_agree_implies_ok (harness or literal printer defect)",
+                      {"kind": "scope-internal", "case": impossible[0]}, found_input=False)
+
+
 def run(ctx, replay=None):
     ctx.rule = ("corpus + adversarial selections (negative / clipped / reversed slice bounds, steps, unsorted and repeated row "
                 "lists, out-of-range rows, every ordered column subset of <= 4 columns, split/reduce) x 10 access styles x "
@@ -1157,8 +1313,16 @@ def run(ctx, replay=None):
                 "real esutil and inside Coq (model on the file bytes = implementation?  Spec.check on the implementation's output "
                 "against its own full read).  non-trivial: the call raised, or the selection is neither empty nor the whole table.")
     ctx.trusted = TRUSTED
+    # the wide-row text cases are 30-80 KB byte lists walked by structurally recursive model functions: coqc needs
+    # more than the default 8 MB of stack for them (inherited by the coqc processes this run starts)
+    try:
+        import resource
+        hard = resource.getrlimit(resource.RLIMIT_STACK)[1]
+        resource.setrlimit(resource.RLIMIT_STACK, (hard, hard))
+    except Exception:  # noqa
+        pass
     WORK["dir"] = os.path.join(ctx.work, "files")
-    core.proof_step(ctx, "C02", core.ALLOW_DISCRETE)
+    core.proof_step(ctx, "C02", core.ALLOW_DISCRETE, extra_targets=["theories/C02/ExecScope.vo"])
     regenerate(ctx)
     # smaller case files than the runner's default (400): the eight entries run one after the other, so
     # parallelism has to come from the shards of each entry
@@ -1170,6 +1334,8 @@ def run(ctx, replay=None):
     core.coq_eval = sharded
     try:
         differential(ctx, PRE, ENTRIES, replay)
+        if replay is None:
+            scope_monitor(ctx)
     finally:
         core.coq_eval = orig
         shutil.rmtree(WORK["dir"], ignore_errors=True)
